@@ -377,6 +377,7 @@ def main(argv=None):
     summary = '%s tier=%s seed=%d evaluations=%d distinct=%d wall=%.1fs' % (
         args.prop, args.tier, args.seed, m['evaluations'], len(m['hashes']) + m['distinct_enum'], wall)
     if new:
+        print('violations by mechanism: %s' % json.dumps(m['viol_counts'], sort_keys=True))
         print('FAIL ' + summary)
         return 1
     if inconclusive:
